@@ -210,6 +210,10 @@ class Interp:
                     raise Unmodelled('deref of non-reference %r' % (v,))
                 c = v[1]
             elif isinstance(e, dict) and 'f' in e:
+                if v is None and create:
+                    # writing a field of storage that is being initialised piecewise (MaybeUninit behind a fresh Box: `vec![x]`)
+                    c.v = ('adt', '<uninit>', 0, [])
+                    v = c.v
                 if v is None:
                     raise Unmodelled('field of uninitialised value')
                 if v[0] == 'adt':
@@ -852,6 +856,27 @@ class Interp:
                 if ix[1] not in recv[1].items:
                     raise PanicPath('no entry for the key')
                 return ('ref', recv[1].items[ix[1]])
+        if name.startswith('alloc::boxed::Box::') and seg in ('new', 'pin', 'from', 'into_inner', 'into_pin') and A:
+            return A[0]          # boxes are transparent
+        if name.startswith('alloc::boxed::Box::') and seg in ('new_uninit', 'new_zeroed') and not A:
+            return ('adt', 'alloc::boxed::Box', 0, [Cell(None)])
+        if name in ('alloc::boxed::box_assume_init_into_vec_unsafe', 'alloc::slice::<impl [T]>::into_vec') and A:
+            def dig(v, d=0):
+                v = self.deref_all(v)
+                if v is None or d > 8:
+                    return None
+                if v[0] == 'arr':
+                    return v
+                if v[0] == 'adt':
+                    for c_ in v[3]:
+                        r_ = dig(c_.v, d + 1)
+                        if r_ is not None:
+                            return r_
+                return None
+            arr_ = dig(A[0])
+            if arr_ is None:
+                raise Unmodelled('%s of something that is not an array' % seg)
+            return ('vec', [c_.v for c_ in arr_[1]])
         if name in ('core::intrinsics::discriminant_value', 'core::mem::discriminant') and A:
             dv = self.deref_all(A[0])
             if dv is not None and dv[0] == 'adt':
@@ -1012,6 +1037,19 @@ class Interp:
             return mk_option(('ref', o[3][0])) if some else mk_option(None)
         if seg == 'as_deref':
             return mk_option(inner) if some else mk_option(None)
+        if seg == 'flatten' and isopt:
+            if not some:
+                return mk_option(None)
+            iv = self.deref_all(inner)
+            if iv is None or iv[0] != 'adt' or iv[1] != 'core::option::Option':
+                raise Unmodelled('flatten of a non-option')
+            return iv
+        if seg in ('ok', 'err') and not isopt:
+            if seg == 'ok':
+                return mk_option(inner) if some else mk_option(None)
+            return mk_option(o[3][0].v if o[3] else UNIT) if not some else mk_option(None)
+        if seg == 'transpose':
+            raise Unmodelled('transpose')
         if seg == 'take':
             cell = v[1]
             old = cell.v
